@@ -352,7 +352,7 @@ func c12(w *core.World, r *core.Report) {
 		if !(pp == core.Module+"/pkg/utils" || pp == core.Module+"/pkg/tree" || pp == core.Module+"/pkg/datastore/target/netconf" || pp == core.Module+"/pkg/datastore") {
 			continue
 		}
-		for _, c := range core.Calls(f) {
+		for _, c := range core.OwnCalls(f) {
 			k := core.CalleeKey(c)
 			var kind string
 			for _, pre := range []string{"github.com/sdcio/sdc-protos/sdcpb.TypedValue.Get", "github.com/openconfig/gnmi/proto/gnmi.TypedValue.Get"} {
